@@ -742,6 +742,17 @@ class Model(Object):
         # First check whether the reactions exist in the model.
         pruned = DictList(filter(existing_filter, reaction_list))
 
+        # Let the solver interface refuse unusable identifiers before anything is
+        # changed (otherwise the reactions would stay in the model without variables).
+        for reaction in pruned:
+            self.problem.Variable(reaction.id)
+            for name in (reaction.id, reaction.reverse_id):
+                if name in self.variables:
+                    raise ValueError(
+                        f"The solver already has a variable named '{name}': cannot "
+                        f"add reaction '{reaction.id}'."
+                    )
+
         context = get_context(self)
 
         # Add reactions. Also take care of genes and metabolites in the loop.
